@@ -4,6 +4,9 @@ theories/Spec/BV.vos theories/Spec/BV.vok theories/Spec/BV.required_vos: theorie
 theories/Spec/Eval.vo theories/Spec/Eval.glob theories/Spec/Eval.v.beautified theories/Spec/Eval.required_vo: theories/Spec/Eval.v theories/Model/Expr.vo
 theories/Spec/Eval.vio: theories/Spec/Eval.v theories/Model/Expr.vio
 theories/Spec/Eval.vos theories/Spec/Eval.vok theories/Spec/Eval.required_vos: theories/Spec/Eval.v theories/Model/Expr.vos
+theories/Spec/SimSpec.vo theories/Spec/SimSpec.glob theories/Spec/SimSpec.v.beautified theories/Spec/SimSpec.required_vo: theories/Spec/SimSpec.v theories/Spec/System.vo
+theories/Spec/SimSpec.vio: theories/Spec/SimSpec.v theories/Spec/System.vio
+theories/Spec/SimSpec.vos theories/Spec/SimSpec.vok theories/Spec/SimSpec.required_vos: theories/Spec/SimSpec.v theories/Spec/System.vos
 theories/Spec/System.vo theories/Spec/System.glob theories/Spec/System.v.beautified theories/Spec/System.required_vo: theories/Spec/System.v theories/Spec/Eval.vo
 theories/Spec/System.vio: theories/Spec/System.v theories/Spec/Eval.vio
 theories/Spec/System.vos theories/Spec/System.vok theories/Spec/System.required_vos: theories/Spec/System.v theories/Spec/Eval.vos
@@ -13,6 +16,9 @@ theories/Model/EvalImpl.vos theories/Model/EvalImpl.vok theories/Model/EvalImpl.
 theories/Model/Expr.vo theories/Model/Expr.glob theories/Model/Expr.v.beautified theories/Model/Expr.required_vo: theories/Model/Expr.v theories/Spec/BV.vo
 theories/Model/Expr.vio: theories/Model/Expr.v theories/Spec/BV.vio
 theories/Model/Expr.vos theories/Model/Expr.vok theories/Model/Expr.required_vos: theories/Model/Expr.v theories/Spec/BV.vos
+theories/Model/Sim.vo theories/Model/Sim.glob theories/Model/Sim.v.beautified theories/Model/Sim.required_vo: theories/Model/Sim.v theories/Spec/SimSpec.vo theories/Model/EvalImpl.vo
+theories/Model/Sim.vio: theories/Model/Sim.v theories/Spec/SimSpec.vio theories/Model/EvalImpl.vio
+theories/Model/Sim.vos theories/Model/Sim.vok theories/Model/Sim.required_vos: theories/Model/Sim.v theories/Spec/SimSpec.vos theories/Model/EvalImpl.vos
 theories/Proofs/BVLemmas.vo theories/Proofs/BVLemmas.glob theories/Proofs/BVLemmas.v.beautified theories/Proofs/BVLemmas.required_vo: theories/Proofs/BVLemmas.v theories/Spec/BV.vo
 theories/Proofs/BVLemmas.vio: theories/Proofs/BVLemmas.v theories/Spec/BV.vio
 theories/Proofs/BVLemmas.vos theories/Proofs/BVLemmas.vok theories/Proofs/BVLemmas.required_vos: theories/Proofs/BVLemmas.v theories/Spec/BV.vos
@@ -25,6 +31,18 @@ theories/Proofs/EvalProofs.vos theories/Proofs/EvalProofs.vok theories/Proofs/Ev
 theories/Proofs/ExprLemmas.vo theories/Proofs/ExprLemmas.glob theories/Proofs/ExprLemmas.v.beautified theories/Proofs/ExprLemmas.required_vo: theories/Proofs/ExprLemmas.v theories/Model/Expr.vo
 theories/Proofs/ExprLemmas.vio: theories/Proofs/ExprLemmas.v theories/Model/Expr.vio
 theories/Proofs/ExprLemmas.vos theories/Proofs/ExprLemmas.vok theories/Proofs/ExprLemmas.required_vos: theories/Proofs/ExprLemmas.v theories/Model/Expr.vos
+theories/Proofs/SimBasics.vo theories/Proofs/SimBasics.glob theories/Proofs/SimBasics.v.beautified theories/Proofs/SimBasics.required_vo: theories/Proofs/SimBasics.v theories/Spec/SimSpec.vo
+theories/Proofs/SimBasics.vio: theories/Proofs/SimBasics.v theories/Spec/SimSpec.vio
+theories/Proofs/SimBasics.vos theories/Proofs/SimBasics.vok theories/Proofs/SimBasics.required_vos: theories/Proofs/SimBasics.v theories/Spec/SimSpec.vos
+theories/Proofs/SimProofs.vo theories/Proofs/SimProofs.glob theories/Proofs/SimProofs.v.beautified theories/Proofs/SimProofs.required_vo: theories/Proofs/SimProofs.v theories/Model/Sim.vo theories/Proofs/SimBasics.vo theories/Proofs/SimStoreProofs.vo
+theories/Proofs/SimProofs.vio: theories/Proofs/SimProofs.v theories/Model/Sim.vio theories/Proofs/SimBasics.vio theories/Proofs/SimStoreProofs.vio
+theories/Proofs/SimProofs.vos theories/Proofs/SimProofs.vok theories/Proofs/SimProofs.required_vos: theories/Proofs/SimProofs.v theories/Model/Sim.vos theories/Proofs/SimBasics.vos theories/Proofs/SimStoreProofs.vos
+theories/Proofs/SimStoreProofs.vo theories/Proofs/SimStoreProofs.glob theories/Proofs/SimStoreProofs.v.beautified theories/Proofs/SimStoreProofs.required_vo: theories/Proofs/SimStoreProofs.v theories/Model/Sim.vo theories/Proofs/SimBasics.vo theories/Proofs/ExprLemmas.vo theories/Proofs/EvalImplProofs.vo
+theories/Proofs/SimStoreProofs.vio: theories/Proofs/SimStoreProofs.v theories/Model/Sim.vio theories/Proofs/SimBasics.vio theories/Proofs/ExprLemmas.vio theories/Proofs/EvalImplProofs.vio
+theories/Proofs/SimStoreProofs.vos theories/Proofs/SimStoreProofs.vok theories/Proofs/SimStoreProofs.required_vos: theories/Proofs/SimStoreProofs.v theories/Model/Sim.vos theories/Proofs/SimBasics.vos theories/Proofs/ExprLemmas.vos theories/Proofs/EvalImplProofs.vos
 theories/Props/C06.vo theories/Props/C06.glob theories/Props/C06.v.beautified theories/Props/C06.required_vo: theories/Props/C06.v theories/Model/EvalImpl.vo theories/Proofs/EvalProofs.vo theories/Proofs/EvalImplProofs.vo
 theories/Props/C06.vio: theories/Props/C06.v theories/Model/EvalImpl.vio theories/Proofs/EvalProofs.vio theories/Proofs/EvalImplProofs.vio
 theories/Props/C06.vos theories/Props/C06.vok theories/Props/C06.required_vos: theories/Props/C06.v theories/Model/EvalImpl.vos theories/Proofs/EvalProofs.vos theories/Proofs/EvalImplProofs.vos
+theories/Props/C07.vo theories/Props/C07.glob theories/Props/C07.v.beautified theories/Props/C07.required_vo: theories/Props/C07.v theories/Model/Sim.vo theories/Proofs/SimBasics.vo theories/Proofs/SimStoreProofs.vo theories/Proofs/SimProofs.vo
+theories/Props/C07.vio: theories/Props/C07.v theories/Model/Sim.vio theories/Proofs/SimBasics.vio theories/Proofs/SimStoreProofs.vio theories/Proofs/SimProofs.vio
+theories/Props/C07.vos theories/Props/C07.vok theories/Props/C07.required_vos: theories/Props/C07.v theories/Model/Sim.vos theories/Proofs/SimBasics.vos theories/Proofs/SimStoreProofs.vos theories/Proofs/SimProofs.vos
